@@ -1364,6 +1364,9 @@ def run(tier, seed):
             ts = [best.get(byn[n]) for n in sizes]
             if None in ts:
                 return ts, None, None
+            # a larger input of the same family does not take less time: a measurement above the one of the next size
+            # is noise of a loaded machine and is clamped to it (real super-polynomial growth is monotone, unaffected)
+            ts = [min(ts[0], ts[1], ts[2]), min(ts[1], ts[2]), ts[2]]
             floor = 2000.0   # below 2 ms the measurement is noise
             return ts, max(ts[1], floor) / max(ts[0], floor), max(ts[2], floor) / max(ts[1], floor)
 
